@@ -231,58 +231,102 @@ Print Assumptions c14_fixed_scenario_ok.
 
 (* ---- the client's parallel sender (SendProtobufParallelWithDecoder) --------------------- *)
 
-(* [prun false ...] runs the transition system of Api/Par.v for the code as it is along an
-   arrival order of the replies; [pinit par chosen] = [par] workers, nodes [chosen] to ask
-   (whatever ParallelOptions made of the node list).  For EVERY arrival order, number of
-   nodes and of workers: if a node has been accepted, ret holds exactly the reply that node
-   produced for this request; ... *)
-Theorem c14_par_accepted_reply : forall want_ret quit out par chosen arrivals n,
-  let s := prun false want_ret quit out (pinit par chosen) arrivals in
+(* [prun decode_every fix_quit want_ret quit out (pinit par chosen) acts] runs the transition
+   system of Api/Par.v -- workers and the main goroutine of the call as actors -- along the
+   steps [acts]; [par] workers, nodes [chosen] to ask (whatever ParallelOptions made of the
+   node list).  The statements below are for the REPAIRED QuitError path ([fix_quit = true];
+   for calls without QuitError the two variants coincide) and hold for EVERY interleaving,
+   any number of nodes and workers, QuitError or not, nodes failing and succeeding in any
+   order: no goroutine closes the closed [done] (RCrash only when there is nobody to ask); *)
+Theorem c14_par_no_crash : forall want_ret quit out par chosen acts,
+  let s := prun false true want_ret quit out (pinit par chosen) acts in
+  ps_dead s = false /\ (forall f, ps_result s = Some (RCrash, f) -> ps_nbr s = 0).
+Proof. exact par_no_crash. Qed.
+Print Assumptions c14_par_no_crash.
+
+(* if a node has been accepted, ret holds exactly the reply that node produced for this request; *)
+Theorem c14_par_accepted_reply : forall want_ret quit out par chosen acts n,
+  let s := prun false true want_ret quit out (pinit par chosen) acts in
   ps_acc s = Some n ->
   exists r, acceptable want_ret out n r /\ (want_ret = true -> ps_ret s = Some r).
 Proof. exact par_accepted_reply. Qed.
 Print Assumptions c14_par_accepted_reply.
 
-(* ... if none has been, ret is untouched; ... *)
-Theorem c14_par_untouched_without_accept : forall want_ret quit out par chosen arrivals,
-  let s := prun false want_ret quit out (pinit par chosen) arrivals in
-  ps_acc s = None -> ps_ret s = None.
+(* while none has been and no worker is about to accept, ret is untouched; *)
+Theorem c14_par_untouched_without_accept : forall want_ret quit out par chosen acts,
+  let s := prun false true want_ret quit out (pinit par chosen) acts in
+  ps_acc s = None -> ps_commit s = None -> ps_ret s = None.
 Proof. exact par_untouched_without_accept. Qed.
 Print Assumptions c14_par_untouched_without_accept.
 
-(* ... replies that arrive later are dropped: neither the accepted node nor ret changes
-   (also after the call has returned); ... *)
-Theorem c14_par_ret_stable : forall want_ret quit out par chosen arrivals later n,
-  let s := prun false want_ret quit out (pinit par chosen) arrivals in
+(* replies that arrive later are dropped: neither the accepted node nor ret changes (also
+   after the call has returned); *)
+Theorem c14_par_ret_stable : forall want_ret quit out par chosen acts later n,
+  let s := prun false true want_ret quit out (pinit par chosen) acts in
   ps_acc s = Some n ->
-  ps_acc (prun false want_ret quit out s later) = Some n /\
-  ps_ret (prun false want_ret quit out s later) = ps_ret s.
+  ps_acc (prun false true want_ret quit out s later) = Some n /\
+  ps_ret (prun false true want_ret quit out s later) = ps_ret s.
 Proof. exact par_ret_stable. Qed.
 Print Assumptions c14_par_ret_stable.
 
-(* ... and the node the call returns is the accepted one, ret at the return being its reply. *)
-Theorem c14_par_result_node : forall want_ret quit out par chosen arrivals n first,
-  let s := prun false want_ret quit out (pinit par chosen) arrivals in
+(* the node the call returns is the accepted one, ret at the return being its reply; *)
+Theorem c14_par_result_node : forall want_ret quit out par chosen acts n first,
+  let s := prun false true want_ret quit out (pinit par chosen) acts in
   ps_result s = Some (RNode n, first) ->
   ps_acc s = Some n /\ first = ps_ret s /\
   exists r, acceptable want_ret out n r /\ (want_ret = true -> first = Some r).
 Proof. exact par_result_node. Qed.
 Print Assumptions c14_par_result_node.
 
+(* and a call that returns an error under QuitError has not written ret, and nothing writes
+   it afterwards. *)
+Theorem c14_par_quit_error_ret_untouched : forall want_ret out par chosen acts later c t first,
+  let s := prun false true want_ret true out (pinit par chosen) acts in
+  ps_result s = Some (RError c t, first) ->
+  first = None /\
+  ps_ret (prun false true want_ret true out s later) = None /\
+  ps_result (prun false true want_ret true out s later) = Some (RError c t, first).
+Proof. exact par_quit_error_ret_untouched. Qed.
+Print Assumptions c14_par_quit_error_ret_untouched.
+
 (* the schedule the correspondence check derives from the harness's release order is one of
    these executions *)
-Theorem c14_par_drive_is_execution : forall fuel de want_ret quit out prio s,
-  exists arrivals, drive fuel de want_ret quit out prio s = prun de want_ret quit out s arrivals.
+Theorem c14_par_drive_is_execution : forall fuel de fq want_ret quit out prio hold s,
+  exists acts, drive fuel de fq want_ret quit out prio hold s = prun de fq want_ret quit out s acts.
 Proof. exact drive_is_prun. Qed.
 Print Assumptions c14_par_drive_is_execution.
 
 (* the variant in which every reply is decoded into ret: node 0 is returned, ret ends up
    holding the reply of node 1 *)
 Theorem c14_par_decode_every_refuted :
-  let s := prun true true false two_nodes (pinit 2 [0; 1]) [0; 1] in
+  let s := prun true true true false two_nodes (pinit 2 [0; 1]) [ACheck 0; ACommit; AMainDecoded; ACheck 1] in
   ps_result s = Some (RNode 0, Some (Msg "q" 0 true "")) /\ ps_ret s = Some (Msg "q" 1 true "").
 Proof. exact par_decode_every_refuted. Qed.
 Print Assumptions c14_par_decode_every_refuted.
+
+(* C14-N1, the QuitError path as it is ([fix_quit = false]): node 1 answers, its worker passes
+   the [done] check and decodes; node 0 fails; the main goroutine closes [done] and returns
+   the error; the worker closes [done] again: the client process dies, and the call has
+   returned an error with ret written ... *)
+Theorem c14_par_quit_double_close_refuted :
+  let s := prun false false true true fail_ok (pinit 2 [0; 1]) [ACheck 1; ACheck 0; AMainErr; ACommit] in
+  ps_dead s = true /\
+  ps_result s = Some (RError EHandler "node-fails", Some (Msg "q" 1 true "")).
+Proof. exact par_quit_double_close_refuted. Qed.
+Print Assumptions c14_par_quit_double_close_refuted.
+
+(* ... and in the other order the call itself panics *)
+Theorem c14_par_quit_double_close_main_refuted :
+  let s := prun false false true true fail_ok (pinit 2 [0; 1]) [ACheck 1; ACommit; ACheck 0; AMainErr] in
+  ps_result s = Some (RCrash, Some (Msg "q" 1 true "")).
+Proof. exact par_quit_double_close_main_refuted. Qed.
+Print Assumptions c14_par_quit_double_close_main_refuted.
+
+Example c14_par_quit_repaired_same_steps :
+  let s := prun false true true true fail_ok (pinit 2 [0; 1]) [ACheck 1; ACheck 0; AMainErr; ACommit; AMainErr] in
+  ps_dead s = false /\ ps_result s = Some (RNode 1, Some (Msg "q" 1 true "")).
+Proof. exact par_quit_repaired_same_steps. Qed.
+Print Assumptions c14_par_quit_repaired_same_steps.
 
 (* ---- the panic barrier covers every kind of registered handler ----------------------------- *)
 
